@@ -343,6 +343,145 @@ def chart_oracle(tree, st, typed, o, lines):
             return f"chart-edges: {tag}: two keys share an index"
     return None
 
+
+# ---------------------------------------------------------------------------
+# whole DOT documents under the options of to_dot (attribute dicts, mappers that set one attribute)
+# ---------------------------------------------------------------------------
+DOT_OPTS = [
+    dict(add=True, uniq=True, g=[], n=[], e=[], nm=None, em=None),
+    dict(add=False, uniq=True, g=[["rankdir", "LR"]], n=[["style", "filled"], ["fillcolor", "#e0e0e0"]], e=[], nm=["color", "red"], em=None),
+    dict(add=True, uniq=False, g=[], n=[], e=[["arrowhead", "vee"]], nm=["label", "X"], em=["style", "dashed"]),
+    dict(add=True, uniq=True, g=[["a", "b"]], n=[], e=[["c", "d"]], nm=["shape", "circle"], em=["label", "L"]),
+    dict(add=False, uniq=False, g=[], n=[["k", "v"]], e=[], nm=None, em=["color", "#C00000"]),
+]
+
+
+def coq_attrs(d):
+    return H.coq_list(f"({H.coq_text(k)}, {H.coq_text(v)})" for k, v in d)
+
+
+def coq_dopts(o):
+    def mp(m):
+        return "None" if m is None else f"(Some ({H.coq_text(m[0])}, {H.coq_text(m[1])}))"
+    return (f"(DO {H.coq_bool(o['add'])} {H.coq_bool(o['uniq'])} {coq_attrs(o['g'])} {coq_attrs(o['n'])} {coq_attrs(o['e'])} "
+            f"{mp(o['nm'])} {mp(o['em'])})")
+
+
+def _setter(m):
+    if m is None:
+        return None
+    k, v = m
+
+    def mapper(node, data):
+        data[k] = v
+    return mapper
+
+
+_ADDR_NODE = re.compile(r"^  (\d+)((?: \[.*\])?)$")
+_ADDR_EDGE = re.compile(r"^  (\d+) -> (\d+)((?: \[.*\])?)$")
+
+
+def dot_doc_lines(tree, st, o, kt):
+    """the emitted document; node ids (memory addresses) are rewritten to @<allocation index> when unique_nodes is off"""
+    kw = dict(unique_nodes=o["uniq"], graph_attrs=dict(o["g"]), node_attrs=dict(o["n"]), edge_attrs=dict(o["e"]),
+              node_mapper=_setter(o["nm"]), edge_mapper=_setter(o["em"]))
+    lines = list(tree.to_dot(add_root=o["add"], **kw) if st is None else st.to_dot(add_self=o["add"], **kw))
+    if o["uniq"]:
+        return lines
+    out = []
+    for ln in lines:
+        m = _ADDR_EDGE.match(ln)
+        if m and m.group(1) in kt.by_nid and m.group(2) in kt.by_nid:
+            out.append(f"  @{kt.by_nid[m.group(1)]} -> @{kt.by_nid[m.group(2)]}{m.group(3)}")
+            continue
+        m = _ADDR_NODE.match(ln)
+        if m and m.group(1) in kt.by_nid:
+            out.append(f"  @{kt.by_nid[m.group(1)]}{m.group(2)}")
+            continue
+        out.append(ln)
+    return out
+
+
+_ATTR = re.compile(r'(\w+)="([^"]*)"')
+
+
+def _parse_attr_tail(tail, tag):
+    """'' | ' [k="v" ...]' -> dict"""
+    if tail == "":
+        return {}
+    if not (tail.startswith(" [") and tail.endswith("]")):
+        raise ParseError(f"{tag}: attribute list {tail!r}")
+    body = tail[2:-1]
+    d = dict(_ATTR.findall(body))
+    if " ".join(f'{k}="{v}"' for k, v in d.items()) != body:
+        raise ParseError(f"{tag}: attribute list {tail!r}")
+    return d
+
+
+def dot_doc_oracle(tree, st, typed, o, lines):
+    """documented layout: defaults section iff an attribute dict is given; every definition / edge carries the
+    default attributes of its kind of line overridden by what the mapper sets"""
+    start = tree._root if st is None else st
+    below = B.all_nodes(start)
+    a, u = o["add"], o["uniq"]
+    tag = f"dot-doc {o}"
+    head = ["# Generator: " + GENERATOR, f'digraph "{tree.name}" {{']
+    if o["g"] or o["n"] or o["e"]:
+        head += ["", "  # Default Definitions"]
+        for word, d in (("graph", o["g"]), ("node", o["n"]), ("edge", o["e"])):
+            if d:
+                head.append(f"  {word}  [" + " ".join(f'{k}="{v}"' for k, v in d) + "]")
+    head += ["", "  # Node Definitions"]
+    if lines[:len(head)] != head:
+        return f"dot-doc-head: {tag}: got {lines[:len(head)]!r}"
+    if lines[-1] != "}":
+        return f"dot-doc-tail: {tag}"
+    body = lines[len(head):-1]
+    try:
+        cut = body.index("  # Edge Definitions")
+    except ValueError:
+        return f"dot-doc-body: {tag}: no edge section"
+    nodes, edges = body[:cut], body[cut + 1:]
+    if not nodes or nodes[-1] != "":
+        return f"dot-doc-body: {tag}: node section not closed by an empty line"
+    nodes = nodes[:-1]
+
+    def ktext(n):
+        return str(n._data_id) if u else f"@{H.nid(n)}"
+
+    exp = ([start] if a else []) + below
+    first = {}
+    for n in exp:
+        first.setdefault(ktext(n), n)
+    if len(nodes) != len(first):
+        return f"dot-doc-nodes: {tag}: {len(nodes)} definitions for {len(first)} keys"
+    for pos, (ln, (k, n)) in enumerate(zip(nodes, first.items())):
+        if not ln.startswith("  " + k):
+            return f"dot-doc-nodes: {tag}: line {ln!r} does not define {k!r}"
+        got = _parse_attr_tail(ln[2 + len(k):], tag)
+        if a and pos == 0:
+            want = {"label": tree.name, "shape": "box"} if st is None else {}
+        else:
+            want = {"label": n.name}
+        if o["nm"]:
+            want[o["nm"][0]] = o["nm"][1]
+        if got != want:
+            return f"dot-doc-nodes: {tag}: line {ln!r} has attributes {got}, expected {want}"
+    wedges = [n for n in below if a or n._parent is not start]
+    if len(edges) != len(wedges):
+        return f"dot-doc-edges: {tag}: {len(edges)} edge lines, expected {len(wedges)}"
+    for ln, n in zip(edges, wedges):
+        pre = f"  {ktext(n._parent)} -> {ktext(n)}"
+        if not ln.startswith(pre):
+            return f"dot-doc-edges: {tag}: line {ln!r} expected to start with {pre!r}"
+        got = _parse_attr_tail(ln[len(pre):], tag)
+        want = {"label": n.kind} if typed else {}
+        if o["em"]:
+            want[o["em"][0]] = o["em"][1]
+        if got != want:
+            return f"dot-doc-edges: {tag}: line {ln!r} has attributes {got}, expected {want}"
+    return None
+
 # ---------------------------------------------------------------------------
 class Prop:
     id = "C17"
@@ -450,7 +589,8 @@ class Prop:
                         univ, nodes = self.label(pat, shape, typed)
                         ci += 1
                         charts = [[0, CHART_OPTS[ci % len(CHART_OPTS)]], [1, CHART_OPTS[(ci // 2 + 3) % len(CHART_OPTS)]]]
-                        yield dict(typed=typed, univ=univ, nodes=nodes, starts="all", charts=charts)
+                        docs = [[ci % 2, DOT_OPTS[ci % len(DOT_OPTS)]], [(ci + 1) % 2, DOT_OPTS[(ci // 3 + 2) % len(DOT_OPTS)]]]
+                        yield dict(typed=typed, univ=univ, nodes=nodes, starts="all", charts=charts, docs=docs)
         nrand = 40 if tier == "quick" else 400
         for _ in range(nrand):
             n = rng.randint(5, 12)
@@ -467,11 +607,20 @@ class Prop:
                 add=rng.random() < 0.5, uniq=rng.random() < 0.5,
                 nt=rng.choice([None, None, NODE_T_BRACKET, "{node.name}"]),
                 et=rng.choice([None, None, EDGE_T_NAMES, "{to_id} <-- {from_id}"]))] for _ in range(3)]
-            yield dict(typed=typed, univ=univ, nodes=nodes, starts=[0] + starts, charts=charts)
+            docs = [[rng.choice([0] + starts), dict(
+                add=rng.random() < 0.5, uniq=rng.random() < 0.5,
+                g=rng.choice([[], [["rankdir", "LR"]]]), n=rng.choice([[], [["style", "filled"], ["fillcolor", "#eee"]]]),
+                e=rng.choice([[], [["color", "blue"]]]),
+                nm=rng.choice([None, ["label", "X"], ["color", "red"]]),
+                em=rng.choice([None, ["label", "E"], ["style", "dashed"]]))] for _ in range(2)]
+            yield dict(typed=typed, univ=univ, nodes=nodes, starts=[0] + starts, charts=charts, docs=docs)
 
     def shrink_candidates(self, desc):
         for nodes in B.drop_one_node(desc["nodes"]):
-            yield dict(desc, nodes=nodes, starts="all", charts=[[min(i, 1), o] for i, o in desc.get("charts", [])])
+            yield dict(desc, nodes=nodes, starts="all", charts=[[min(i, 1), o] for i, o in desc.get("charts", [])],
+                       docs=[[min(i, 1), o] for i, o in desc.get("docs", [])])
+        for k in range(len(desc.get("docs", []))):
+            yield dict(desc, docs=desc["docs"][:k] + desc["docs"][k + 1:])
         for k in range(len(desc.get("charts", []))):
             yield dict(desc, charts=desc["charts"][:k] + desc["charts"][k + 1:])
 
@@ -506,15 +655,27 @@ class Prop:
                 fail = chart_oracle(tree, cst, typed, o, lines)
                 if fail:
                     fail = f"{fail} [start={i}]"
-        obs = [obs, chart_obs]
+        doc_obs, doc_terms = [], []
+        for i, o in desc.get("docs", []):
+            if i > len(nodes):
+                continue
+            dst = None if i == 0 else nodes[i - 1]
+            lines = dot_doc_lines(tree, dst, o, kt)
+            doc_obs.append(lines)
+            doc_terms.append(f"({H.z(0 if dst is None else H.nid(dst))}, {coq_dopts(o)})")
+            if fail is None:
+                fail = dot_doc_oracle(tree, dst, typed, o, lines)
+                if fail:
+                    fail = f"{fail} [start={i}]"
+        obs = [obs, chart_obs, doc_obs]
         coq = (f"({H.coq_rt(tree._root, U)}, {H.coq_list(H.z(0 if s is None else H.nid(s)) for s in starts)}, "
-               f"{H.coq_list(chart_terms)})")
+               f"{H.coq_list(chart_terms)}, {H.coq_list(doc_terms)})")
         dids = Counter((type(n._data_id).__name__, n._data_id) for n in nodes)
         anc_clone = any(_has_desc_clone(n) for n in nodes)
         return Case(desc=desc, coq_input=coq, impl_obs=obs, oracle_fail=fail,
                     nontrivial=len(nodes) >= 2,
-                    key=H.digest([desc["nodes"], typed, desc["starts"], desc.get("charts")]),
-                    stats=dict(nodes=len(nodes), starts=len(starts), charts=len(chart_obs),
+                    key=H.digest([desc["nodes"], typed, desc["starts"], desc.get("charts"), desc.get("docs")]),
+                    stats=dict(nodes=len(nodes), starts=len(starts), charts=len(chart_obs), docs=len(doc_obs),
                                chart_errors=sum(1 for c in chart_obs if c == -1),
                                clones=sum(1 for v in dids.values() if v > 1),
                                start_clone_below=anc_clone, typed=typed,
